@@ -171,6 +171,8 @@ Ws == { << "upgrade", "websocket" >>, << "connection", "Upgrade" >> }
 RpReqs ==
     { Req("rp.ws", "GET", T_ws, Ws \cup Secrets, NoCl),
       Req("rp.plain", "GET", T_other, Secrets, NoCl),
+      \* a field name on several lines stays several lines (Cookie as HTTP/2 clients split it, X-Forwarded-For)
+      Req("rp.repeated", "GET", T_apix, Ws \cup Secrets \cup { << "cookie", "second=2" >>, << "x-forwarded-for", "203.0.113.7" >>, << "x-forwarded-for", "198.51.100.9" >> }, NoCl),
       Req("rp.post", "POST", T_submitQ, { << "content-type", "text/plain" >> } \cup Secrets, Cl(Dec(5))),
       Req("rp.steerhost", "GET", T_apix, Ws \cup { << "host", "evil.example:8080" >>, << "x-forwarded-host", "127.0.0.1" >>, << "forwarded", "host=127.0.0.1" >> }, NoCl),
       Req("rp.steerabs", "GET", T_evilAbs, Ws, NoCl),
